@@ -14,13 +14,14 @@
   (with arbitrary contents of the files being written = every byte cut, and committers' raw
   operations interleaved).
 
-  The models follow the code AFTER the repairs 6838ec8 (swap = hard link + one atomic os.replace;
-  the two-rename sequence survives only as the fallback when `os.link` fails), bd7a476 (the
-  leftover .old is removed inside the try/finally that clears the flag), dd8808d (the saved index
-  is removed before the swap) and 1d2e1d8 (copyRest re-writes the header length of a copied
-  transaction whose back pointer could not be kept).
+  The models follow the code AFTER four repairs made in /repo while this check was built:
+  the swap is a hard link + one atomic os.replace (the two-rename sequence survives only as the
+  fallback when `os.link` fails); the leftover .old is removed inside the try/finally that clears
+  the flag; the saved index is removed before the swap; copyRest re-writes the header length of a
+  copied transaction whose back pointer could not be kept.
 -/
 import Proofs.PackProto
+import Proofs.PackProtoMutants
 import Proofs.PackDisk
 namespace Props.C08
 open ZodbModel
@@ -160,6 +161,50 @@ example : (run (init [1, 2, 3]) [.packStart 2, .scan 2, .bulkCopy [2], .acquireC
     .packFail, .begin 4, .vote, .finish, .packStart 3]).map
     (fun s => (s.file, s.phase, s.packFlag)) = some ([1, 2, 3, 4], .started, true) := by decide
 
+/-! necessity: the same statements FAIL for protocols weakened in one place
+    (`Proofs/PackProtoMutants.lean`) — the theorems hold because of the lock discipline. -/
+section Necessity
+open Proofs.PackProtoMutants
+
+/-- releasing the commit lock before the swap: commit 4 lands in the old file after the packer saw
+    EOF; it returned, is later than the pack time, and is NOT stored (`pack_no_lost_commit` fails) -/
+example : (runM .releaseBeforeSwap (init [1, 2, 3])
+    [.packStart 2, .scan 2, .bulkCopy [2], .acquireCommit, .readHdr, .releaseForBody, .copyBody,
+     .reacquire, .readHdr, .swapBegin, .begin 4, .vote, .finish, .ret 4, .swapEnd]).map
+    (fun s => (s.file, s.returned, s.packedUpTo)) = some ([2, 3], [1, 2, 3, 4], 2) := by decide
+
+/-- reading the next header without the commit lock: the packer takes the voted, unfinished
+    transaction 4 for a header (`packer_sees_quiescent` fails: corrupt) -/
+example : (runM .headerWithoutLock (init [1, 2, 3])
+    [.packStart 2, .scan 2, .bulkCopy [2], .acquireCommit, .readHdr, .releaseForBody, .begin 4,
+     .vote, .copyBody, .readHdr]).map (fun s => (s.corrupt, s.pending, s.commitLock)) =
+    some (true, some 4, some .committer) := by decide
+
+/-- not emptying the pool: after the swap a reader is handed a handle on the old file and reads it
+    with the new index (`pack_reader_safe_partial` fails: badRead) -/
+example : (runM .poolNotEmptied (init [1, 2])
+    [.readerGet, .readerPut 0, .packStart 1, .scan 1, .bulkCopy [], .acquireCommit, .readHdr,
+     .releaseForBody, .copyBody, .reacquire, .readHdr, .swapBegin, .swapEnd, .releaseCommit,
+     .clearFlag, .readerGet, .readerRead 0]).map (fun s => (s.badRead, s.gen)) =
+    some (true, 1) := by decide
+
+/-- ending the copy at the file_end snapshot of the scan: commit 4, finished during the bulk copy
+    and returned, is lost (`pack_no_lost_commit` / `swap_exact` fail) -/
+example : (runM .eofNotReread (init [1, 2, 3])
+    [.packStart 2, .scan 2, .bulkCopy [2], .begin 4, .vote, .finish, .ret 4, .acquireCommit,
+     .readHdr, .releaseForBody, .copyBody, .reacquire, .readHdr, .swapBegin, .swapEnd]).map
+    (fun s => (s.file, s.returned)) = some ([2, 3], [1, 2, 3, 4]) := by decide
+
+/-- the unweakened protocol refuses each of those schedules at the decisive step -/
+example : run (init [1, 2, 3])
+    [.packStart 2, .scan 2, .bulkCopy [2], .acquireCommit, .readHdr, .releaseForBody, .copyBody,
+     .reacquire, .readHdr, .swapBegin, .begin 4] = none := by decide
+example : run (init [1, 2, 3])
+    [.packStart 2, .scan 2, .bulkCopy [2], .acquireCommit, .readHdr, .releaseForBody, .begin 4,
+     .vote, .copyBody, .readHdr] = none := by decide
+
+end Necessity
+
 end Proto
 
 /-! ## (b) all crash points -/
@@ -167,7 +212,7 @@ section Disk
 open ZodbModel.PackDisk Proofs.PackDisk
 
 /-- Crash at ANY point of a pack whose swap uses the hard link (`os.link` works — the normal case
-    since 6838ec8): for every cut of the pack's event list — every byte cut of every write to
+    since the repair of the two-rename swap): for every cut of the pack's event list — every byte cut of every write to
     .pack / .index_tmp, every boundary around the removals, the link, the replace and the index
     rename, with committers' raw operations interleaved anywhere — reopening finds a Data.fs (no
     empty database is ever created) holding either the unpacked or the packed database, each with
@@ -175,7 +220,7 @@ open ZodbModel.PackDisk Proofs.PackDisk
     returned, see `returned_are_committed`).  Up to and including the link it is the unpacked one,
     from the replace on the packed one. -/
 theorem pack_crash_either (r : Run) (u0 kept : List Tid) (k : Nat) (wf : WF r u0 kept k)
-    (hl : r.links = true) (cut : Nat) :
+    (hl : LinksSupported r) (cut : Nat) :
     ∃ o, openDir (image r.d0 r.trace cut) = some o ∧ o.created = false ∧
       (o.txns = committed r u0 cut ∨ o.txns = packOf kept k (committed r u0 cut)) ∧
       (cut ≤ r.midSwapCut → o.txns = committed r u0 cut) ∧
@@ -213,9 +258,11 @@ theorem pack_crash_either_partial (r : Run) (u0 kept : List Tid) (k : Nat) (wf :
     `rename(Data.fs → Data.fs.old)` and `rename(Data.fs.pack → Data.fs)` there is no Data.fs;
     opening creates the EMPTY database while every committed transaction sits in Data.fs.old. -/
 theorem pack_crash_between_renames_loses_data (r : Run) (u0 kept : List Tid) (k : Nat)
-    (wf : WF r u0 kept k) (hl : r.links = false) :
+    (wf : WF r u0 kept k) (hl : ¬ LinksSupported r) :
     ∃ o b, openDir (image r.d0 r.trace r.midSwapCut) = some o ∧ o.created = true ∧ o.txns = [] ∧
       o.after.old = some (.db (committed r u0 r.midSwapCut) b) := by
+  have hl : r.links = false := by
+    unfold LinksSupported at hl; cases h : r.links <;> simp_all
   obtain ⟨hd, b, hold⟩ := mid_swap_nolinks wf hl
   obtain ⟨o, ho, ht, hc, hao, _⟩ := openDir_missing hd
   refine ⟨o, b, ho, hc, ht, ?_⟩
